@@ -5,6 +5,7 @@ import TsVerif.Common.Tree
 import TsVerif.C16.Judge
 import TsVerif.C16.DeriveExec
 import TsVerif.C16.Inline
+import TsVerif.C16.DriverTie
 /-!
 Driver for C16.  Input = explorer ops (spec / nodetypes / Rust-API answers) followed by the output of
 the C unit (table dumps, answers of the real C functions, real parse trees).  Output: one line per
@@ -75,6 +76,8 @@ structure LangInfo where
   gprods : Array (Nat × List Derive.Step) := #[]             -- (var, production)
   groots : List Nat := []
   reds : Array (Nat × Nat × List (Nat × Nat)) := #[]        -- reduce actions: symbol, child count, own fields (child index, field id)
+  pas : Array (Nat × List C03.Action) := #[]                  -- action index ↦ decoded actions
+  lexModes : Array Nat := #[]
   ginl : List Nat := []
   gextra : List Nat := []
   gskip : String := ""
@@ -238,6 +241,7 @@ def evalLang (exact : Bool) (id : String) (li : LangInfo) : String :=
     (firstFail li.syms.toList (fun (si, real) =>
       if si.hasKind && real != si.pub then some s!"symbol-roundtrip-error-prefix kind={showName si.name} named={si.named} got={real} want={si.pub}" else none)).orElse fun _ =>
     (if pubConsistent T then none else some "public-symbol-map-inconsistent").orElse fun _ =>
+    (if decide T.fieldNames.Nodup then none else some "duplicate-field-name").orElse fun _ =>
     (firstFail (List.range li.flds.size) (fun i =>
       if (li.flds.getD i ([], 0)).2 == i + 1 then none else some s!"field-roundtrip id={i + 1}")).orElse fun _ =>
     (firstFail li.rrt.toList (fun (k, vis, _named, sup, back, name) =>
@@ -253,13 +257,41 @@ def evalLang (exact : Bool) (id : String) (li : LangInfo) : String :=
     | none => none
     | some nt => firstFail li.sups.toList (fun (sym, subs) =>
         if subtypesAgree nt (refOf sym) (subs.map refOf) then none else some s!"subtypes-of {(refOf sym).kind}")
+  -- the decoded table the C03 driver reads (cells: real ts_language_lookup values, action lists: real parse_actions)
+  let paSize := li.pas.foldl (fun m (i, _) => max m (i + 1)) 0
+  let paArr : Array (List C03.Action) := li.pas.foldl (fun a (i, as) => a.set! i as) (Array.replicate paSize [])
+  let actRows : Array (List (Nat × List C03.Action)) := states.toArray.map (fun s => ((li.nz.getD s []).filter (fun (sym, _) => sym < L.tokenCount)).map (fun (sym, v) => (sym, paArr.getD v [])))
+  let tbl : C03.Table := { symbolCount := L.symbolCount, tokenCount := L.tokenCount, stateCount := L.stateCount, lexState := li.lexModes, acts := actRows }
+  let judgeActs : Option String :=
+    if li.pas.isEmpty then some "no-action-dump"
+    else if !actsAgree L tbl then some "decoded-cell-without-raw-entry"
+    else if !cellsHaveActions L tbl then some "listed-terminal-without-actions"
+    else none
+  let actCells := (tbl.acts.toList.map List.length).foldl (· + ·) 0
+  -- ts_language_symbol_type (through the Rust binding's three questions) vs the port on the dumped metadata
+  let corrSymType := firstFail li.rrt.toList (fun (k, vis, named, sup, _, _) =>
+    if kindFlags (li.syms.getD k (default, 0)).1 == (vis, named, sup) then none else some s!"symbol_type id={k}")
+  -- every kind a node can carry has an entry in node-types.json, and every entry is such a kind
+  let bytesOf (x : String) : List Nat := x.toUTF8.toList.map (·.toNat)
+  let inlinedNames : List (List Nat) := li.ginl.filterMap (fun v => ((li.gsyms.toList.filter (·.1))[v]?).map (fun (_, _, _, name) => bytesOf name))
+  let judgeListed : Option String := match li.nt with
+    | none => none
+    | some nt =>
+      let entries := nt.map (fun e => (bytesOf e.ty.kind, e.ty.named, e.subtypes.isSome))
+      if kindsListed T inlinedNames entries then none else
+        match T.syms.find? (fun sy => sy.visible && !inlinedNames.contains sy.name && !entries.any (fun e => e.1 == sy.name && e.2.1 == sy.named && !e.2.2)) with
+        | some sy => some s!"kind-without-entry kind={showName sy.name} named={sy.named}"
+        | none => some "supertype-without-entry"
+  let spurious := match li.nt with
+    | some nt => (spuriousEntries T (nt.map (fun (e : Entry) => (bytesOf e.ty.kind, e.ty.named, e.subtypes.isSome)))).length
+    | none => 0
   let modelNames := namesRoundTrip T
   let ntwf := match li.nt with | some nt => if ntWF nt then "ok" else "FAIL" | none => "MISSING"
   let r (o : Option String) := match o with | none => "ok" | some m => "FAIL " ++ m
   let total := (li.la.toList.map List.length).foldl (· + ·) 0
   s!"L-{id} tablewf={if wf then "ok" else "FAIL"} corr_la={r corrLa} corr_lookup={r corrLookup} corr_names={r corrNames} " ++
   s!"model_closed={evalModelClosed li} " ++
-  s!"judge_la={r judgeLa} judge_names={r judgeNames} judge_sup={r judgeSup} supertypes={li.sups.size} model_names={modelNames} ntwf={ntwf} states={L.stateCount} large={L.largeStateCount} " ++
+  s!"judge_la={r judgeLa} judge_names={r judgeNames} judge_sup={r judgeSup} judge_listed={r judgeListed} spurious_entries={spurious} corr_symtype={r corrSymType} judge_acts={r judgeActs} actcells={actCells} supertypes={li.sups.size} model_names={modelNames} ntwf={ntwf} states={L.stateCount} large={L.largeStateCount} " ++
   s!"symbols={L.symbolCount} aliases={li.aliasCount} fields={li.fieldCount} listed={total} entries={(li.nt.getD []).length}"
 
 def viaSuper (nt : NodeTypes) : VT → Nat
@@ -350,6 +382,8 @@ def step (s : St) (line : String) : IO St := do
   | ["sup", sym, subs] =>
     let l := if subs == "-" then [] else (subs.splitOn ",").map natOf
     return s.upd s.cur (fun li => { li with sups := li.sups.push (natOf sym, l) })
+  | "pa" :: idx :: rest => return s.upd s.cur (fun li => { li with pas := li.pas.push (natOf idx, rest.filterMap C03.parseAction) })
+  | "lm" :: rest => return s.upd s.cur (fun li => { li with lexModes := (rest.map natOf).toArray })
   | "red" :: sym :: cc :: _ :: "f" :: rest =>
     let fs := (rest.takeWhile (· != "a")).map (fun w => match colon w with | [a, b] => (a, b) | _ => (0, 0))
     return s.upd s.cur (fun li => { li with reds := li.reds.push (natOf sym, natOf cc, fs) })
